@@ -1,5 +1,6 @@
 import FxVerif.Proofs.C11Tx
 import FxVerif.Proofs.C11Exact
+import FxVerif.Proofs.C11Chain
 /-!
 # C11 — transferring delegation shares conserves shares, stake and reward entitlements
 
@@ -997,6 +998,51 @@ theorem sanity_closed_form {v : VS} {evs : List SlashEv} {T0 sp st sh : Nat} (hS
 theorem starting_stake_tight (v : VS) (sh : Nat) : v.tokensFromSharesTrunc sh * v.shares ≤ sh * v.tokens * ONE :=
   tfsTrunc_tight v sh
 
+/-! ### the closed form connected to the model's own steps -/
+
+/-- **tight_chain_never_fails_sanity** — the closed form of round 4 (`sanity_closed_form`, over an abstract chain of
+slashes) connected to the functions `State.exec` runs.  Take the record `v` of validator `w` after ANY history from
+genesis, at height `h`, and suppose every delegator's stake is tight there (`TightV`: the stake the slash loop recomputes
+is at most the exact token worth of the shares — true at genesis: `genesis_is_tight`; nothing is stamped with a future
+height).  Then after ANY chain (`TightSteps`, any length, any interleaving) of
+ · slashes by the model's `VS.slash` — distribution hook, period bookkeeping, event appended, tokens burnt — whose recorded
+   fraction is exact (`slashExact`; `slash_fraction_closed_form`: always within 10⁻³⁶, exact whenever digits 19…36 of the
+   quotient are not all zero),
+ · reward allocations, successful reward withdrawals,
+ · successful share transfers between two accounts through the INTERPRETED body of `handlerTransferShares` (`cfg.prog`: the
+   two hand-written starting infos are tight) and
+ · passing blocks / status changes,
+the SDK's stake sanity check cannot fire for any delegator, and every delegator can withdraw its rewards (the delegation
+stays).  What such a chain may NOT contain — and why no invariant over all of `State.run` exists — is `Undelegate` /
+`BeginRedelegation` at this validator (the tokens handed out are ROUNDED, which can lower the worth of the remaining
+shares by < 10⁻¹⁸ relative) and inexact slashes (`stake_sanity_reachable`). -/
+theorem tight_chain_never_fails_sanity (nAcc h0 : Nat) (vals : List (Nat × Nat)) (hv : vals.length ≤ nAcc) (ops : List Op)
+    {w : Nat} (hw : w < vals.length) {h h' : Nat} {v' : VS}
+    (ht : TightV (reachVS nAcc h0 vals ops w)) (hn : NotFuture (reachVS nAcc h0 vals ops w) h)
+    (hs : TightSteps cfg nAcc (reachVS nAcc h0 vals ops w) h v' h') (hS : 0 < v'.shares) (d : Nat) :
+    v'.sanityFires h' d = false ∧
+    (∀ sh, d < nAcc → v'.del d = some sh → ∃ v'' c, v'.withdrawMsg h' d = .ok (v'', c) ∧ v''.del d = some sh) := by
+  have hi : VInv nAcc (reachVS nAcc h0 vals ops w) := reach_SInv cfg_good nAcc h0 vals hv ops hw
+  obtain ⟨hi', ht', hn'⟩ := tight_steps_invariant cfg_good hs hi ht hn
+  have hns := tight_no_sanity ht' hn' hS d
+  refine ⟨hns, ?_⟩
+  intro sh hd hdel
+  obtain ⟨si, hsi⟩ := Dom_sinfo_some hi'.dom hdel
+  rcases withdrawMsg_total hi'.ri hi'.dom (h := h') hd hdel with hE | ⟨v'', c, hw', _, _, _, _, _, _, sf⟩
+  · have hwr := (withdrawRewards_sanity hi'.ri (h := h') hdel hsi).mp (withdrawMsg_sanity_imp hE)
+    rw [hns] at hwr; cases hwr
+  · exact ⟨v'', c, hw', by rw [sf.1]; exact hdel⟩
+
+/-- **genesis_is_tight.**  The hypothesis of `tight_chain_never_fails_sanity` holds at genesis for every validator -/
+theorem genesis_is_tight (nAcc h0 : Nat) (vals : List (Nat × Nat)) {w : Nat} (hw : w < vals.length) (h : Nat) :
+    TightV (reachVS nAcc h0 vals [] w) ∧ NotFuture (reachVS nAcc h0 vals [] w) h := by
+  have e : reachVS nAcc h0 vals [] w = genesisVS w (vals[w]'hw).1 (vals[w]'hw).2 := by
+    show (init nAcc h0 vals).vs w = _
+    simp only [init]
+    rw [List.getElem?_eq_getElem hw]
+  rw [e]
+  exact genesis_tight _ _ _ _
+
 /-! ### non-vacuity: the hypotheses are satisfiable on concrete, non-trivial histories -/
 
 /-- a history with a new recipient, an existing recipient, a full transfer, a slash and a self-transfer -/
@@ -1131,6 +1177,16 @@ example : ((init 4 1 [(1000, 0)]).run cfg [.delegate 1 0 500, .approve 1 3 0 70,
   decide
 example : ((init 4 1 [(1000, 0)]).run cfg [.delegate 1 0 500, .block]).allow 0 1 3 < 70 ∧
     isOk (((init 4 1 [(1000, 0)]).run cfg [.delegate 1 0 500, .block]).exec cfg (.transferFrom 3 1 1 0 70)) = false := by
+  decide
+
+-- tight_chain_never_fails_sanity / genesis_is_tight: from genesis (2000 coins of 10^18 base units = power 20), a chain with
+-- an exact slash by the model's VS.slash (power 1, 5 %: burns 5·10^18 of 2·10^21, fraction 0.0025 exactly), an allocation
+-- and three blocks; the record then carries one slash event and fewer tokens, shares stay positive
+example : ∃ v' h', TightSteps cfg 4 (reachVS 4 1 [(2000000000000000000000, 0)] [] 0) 1 v' h' ∧ 0 < v'.shares ∧
+    v'.slashes.length = 1 ∧ v'.tokens = 1995000000000000000000 ∧ h' = 4 :=
+  ⟨_, _, .slash 1 50000000000000000 (by decide) (.alloc 77 (.blocks 3 true false false 0 (.refl _ _))),
+   by decide, by decide, by decide, rfl⟩
+example : slashExact (min (dMul (1 * POWER_REDUCTION * ONE) 50000000000000000 / ONE) 2000000000000000000000) 2000000000000000000000 = true := by
   decide
 
 end FxVerif.Props.C11
